@@ -1069,3 +1069,43 @@ example : offsetFromAxesTol (1 / 100000) (1 / 100000000) ⟨0, 1, 4, false, fals
       abs_of_pos (show (0 : Rat) < 1 / 1048576 by norm_num)]
     norm_num [abs_of_pos]
   unfold offsetFromAxesTol; simp only [h, hr, hc]; simp
+
+/-! ### ROUND 5: `apply_on_boundary` and `_scale_bdry_cells` (`applyOnBoundary`, `scaleBdryCells`;
+driver op `aob`, stream `boundary`) -/
+
+section round5
+variable {K : Type} [CommRing K]
+
+/-- **`apply_on_boundary` preserves all other values** — for every combination of its options
+(`only_once` or not, any functions / `None` entries / `which_boundaries`, any `axis_order`, also
+with repeated axes) and any remembered slices: an entry that is neither first nor last in any of
+the processed axes is returned unchanged. -/
+theorem C16.boundary_interior_untouched (once : Bool) (shape : List Nat) (steps : List (BStep K))
+    (st : Nat → Bool × Bool) (A : List Nat → K) (idx : List Nat)
+    (h : ∀ s ∈ steps, idx.getD s.ax 0 ≠ 0 ∧ idx.getD s.ax 0 + 1 ≠ shape.getD s.ax 0) :
+    applyOnBoundary once shape st steps A idx = A idx :=
+  aob_interior once shape steps st A idx h
+
+/-- **`_scale_bdry_cells` multiplies by the product of the boundary-cell fractions.**  The code
+scales with `apply_on_boundary(arr, func_list, only_once=False)`, `func_list` = per axis the
+pair `x ↦ fl·x`, `x ↦ fr·x`; for every shape, all fractions and contents this is, entry by
+entry, multiplication by `∏_axes bdryFrac` — the diagonal weight the adjoint theorems
+(`C16.weighted_adjoint`, `C16.weighted_adjoint_nd`, `C16.adjoint_scaling_normal_form`) assume
+(corner cells get the product of the fractions, a single cell both factors of its axis). -/
+theorem C16.scale_bdry_cells_eq_fractions (shape : List Nat) (fracs : List (K × K))
+    (h : fracs.length = shape.length) (A : List Nat → K) (idx : List Nat) :
+    scaleBdryCells shape fracs A idx = A idx * bdryFracProd 1 0 shape fracs idx := by
+  have := aob_scale shape fracs 0 (fun _ => (false, false)) A idx (by simpa using h)
+  simpa [scaleBdryCells] using this
+
+/-- non-vacuity (docstring of `apply_on_boundary` with `x ↦ 2x` on a 3 × 3 array of ones):
+`only_once=True` doubles every boundary entry once, `only_once=False` the corners twice; an
+array of shape (1, 2) scaled by fractions ((2, 3), (5, 7)) -/
+example : (let steps : List (BStep Int) := [⟨0, some (2, 0), some (2, 0)⟩, ⟨1, some (2, 0), some (2, 0)⟩]
+    ([[0, 0], [0, 1], [1, 1]].map (applyOnBoundary true [3, 3] (fun _ => (false, false)) steps (fun _ => 1)),
+     [[0, 0], [0, 1], [1, 1]].map (applyOnBoundary false [3, 3] (fun _ => (false, false)) steps (fun _ => 1))))
+    = ([2, 2, 1], [4, 2, 1]) := by decide
+example : [[0, 0], [0, 1]].map (scaleBdryCells [1, 2] [((2 : Int), 3), (5, 7)] (fun _ => 1)) =
+    [30, 42] := by decide
+
+end round5
